@@ -763,7 +763,9 @@ def _planarc_contract():
         r = L.radius
         step = And(eq(nx - px, r * (Cos(a1) - Cos(a0))), eq(ny - py, r * (Sin(a1) - Sin(a0))))
         chord = eq(sq(nx - px) + sq(ny - py), r2 * (2 - 2 * Cos(inc)))
-        return [("C16.sample-on-circle", eq(sq(nx - cx) + sq(ny - cy), r2)),
+        coords = And(eq(nx, cx + Cos(a1) * r), eq(ny, cy + Sin(a1) * r))
+        return [("C16.lemma-sample-coordinates", coords),
+                ("C16.sample-on-circle", eq(sq(nx - cx) + sq(ny - cy), r2), [coords, trig_pythagoras(a1), eq(sq(r), r2)]),
                 # lemma chain: squared distance = r^2 (2 - 2 cos inc) <= (r inc)^2 <= 1
                 ("C16.lemma-step-vector", step),
                 ("C16.lemma-distance-is-chord", chord, [step, trig_addition(a0, inc), eq(sq(r), r2)]),
@@ -771,7 +773,30 @@ def _planarc_contract():
                 ("C16.samples-at-most-one-unit-apart", sq(nx - px) + sq(ny - py) <= 1,
                  [chord, r2 * (2 - 2 * Cos(inc)) <= r2 * sq(inc), eq(sq(r), r2), sq(r * inc) <= 1])]
 
-    c.loop(0, invariant=inv, reveal=reveal, check=check,
+    def entry(L):
+        """Lemmas at loop entry, each proved from a small set of facts (keeps the nonlinear queries small)."""
+        r, T, inc, n, al = L.radius, L.angularTravel, L.angularIncrement, L.numSegments, L.arcLength
+        x0, y0 = start(L)
+        cx, cy = x0 + L.i, y0 + L.j
+        absT = If(T >= 0, T, -T)
+        f1 = And(al <= n, n >= 1)                                 # n = max(1, ceil(arc length)) >= arc length
+        f2 = And(eq(al, absT * r), r >= 0, eq(inc * n, T))
+        out = [("C16.lemma-segments-cover-arc", f1),
+               ("C16.lemma-arc-length", f2),
+               ("C16.lemma-increment-times-radius-at-most-one", sq(r * inc) <= 1, [f1, f2])]
+        at = L.f.g.get("atan2") or []
+        if len(at) >= 2:
+            rec = at[1]           # angle = atan2(-j, -i): -i = rho cos(angle), -j = rho sin(angle), rho = hypot
+            rho, t = rec["r"], rec["t"]
+            facts = And(rho >= 0, eq(sq(rho), sq(L.i) + sq(L.j)), eq(-L.i, rho * Cos(t)), eq(-L.j, rho * Sin(t)), eq(L.angle, t))
+            rfacts = And(r >= 0, eq(sq(r), sq(L.i) + sq(L.j)))
+            out += [("C16.lemma-atan2-facts", facts), ("C16.lemma-radius-facts", rfacts),
+                    ("C16.lemma-rho-is-radius", eq(rho, r), [facts, rfacts]),
+                    ("C16.lemma-start-point-on-circle", And(eq(x0, cx + r * Cos(L.angle)), eq(y0, cy + r * Sin(L.angle))),
+                     [facts, eq(rho, r)])]
+        return out
+
+    c.loop(0, invariant=inv, reveal=reveal, check=check, entry=entry,
            havoc={"angle": "real", "rval": mk_growlist}, scratch=["dummy"])
     c.loops[0].check_props = ("C16",)
     c.ensures("C16.ends-exactly-at-endpoint", lambda f: And(
